@@ -5,7 +5,7 @@
     every response an upstream can send (any status code, any decoded/undecodable body, any transport
     error) — the nine fault modes of the property are instances. *)
 From Coq Require Import List String ZArith Bool Arith Lia.
-From PintV Require Import Common.Bytes Gen.Tables Gen.C15 Model.Failover Proofs.C15_failover.
+From PintV Require Import Common.Bytes Gen.Tables Gen.C15 Model.Failover Proofs.C15_failover Proofs.C15_sequences.
 Import ListNotations.
 Open Scope string_scope.
 Open Scope list_scope.
@@ -189,6 +189,52 @@ Proof.
 Qed.
 Print Assumptions C15_second_call_served_from_cache.
 
+(** ** 6. Fault sequences: errors leave no trace.
+
+    After a call that upstream [k] answered behind unavailable upstreams the client state is the fresh state except that
+    [k] holds its own answer: nothing at all is remembered about the upstreams that failed (no cached error, no flag). *)
+Theorem C15_errors_leave_no_trace : forall ep rs k resp marker a,
+  nth_error rs k = Some (resp, marker) ->
+  (forall j rj mj, j < k -> nth_error rs j = Some (rj, mj) -> property_unavailable ep rj = true) ->
+  run_query ep marker resp = AAnswer a ->
+  fo_state (failover ep (fresh_group rs)) =
+    fresh_group (firstn k rs) ++ [mk_upstream resp marker false (Some a)] ++ fresh_group (skipn (S k) rs).
+Proof. exact state_after_answer. Qed.
+Print Assumptions C15_errors_leave_no_trace.
+
+(** Hence an upstream that comes back is used again at once: if [j0 < k] now answers ([r0'] yields [a0]) and the
+    upstreams in front of it are still unavailable — whatever all the others send now ([rs2]) — the second call on the
+    same group is answered by [j0] with its own fresh answer (not by the cached answer of [k], not by a replayed
+    error), upstreams [0..j0] get one request each and no later upstream any. *)
+Theorem C15_recovered_upstream_answers : forall ep rs k resp marker a j0 r0 m0 r0' a0 rs2,
+  nth_error rs k = Some (resp, marker) ->
+  (forall j rj mj, j < k -> nth_error rs j = Some (rj, mj) -> property_unavailable ep rj = true) ->
+  run_query ep marker resp = AAnswer a ->
+  j0 < k -> nth_error rs j0 = Some (r0, m0) ->
+  nth_error rs2 j0 = Some r0' -> run_query ep m0 r0' = AAnswer a0 ->
+  (forall j rj, j < j0 -> nth_error rs2 j = Some rj -> property_unavailable ep rj = true) ->
+  List.length rs2 = List.length rs ->
+  let st := fo_state (failover ep (fresh_group rs)) in
+  let r2 := failover ep (set_resps st rs2) in
+  fo_outcome r2 = OAnswer j0 a0 /\
+  fo_contacts r2 = repeat 1 (S j0) ++ repeat 0 (List.length rs - S j0).
+Proof. exact recovered_upstream_answers. Qed.
+Print Assumptions C15_recovered_upstream_answers.
+
+(** ** 7. Range queries over several slices.
+
+    Whatever the schedule ([pick]: which failing slice reports last), a range query cut into slices [rs] on one upstream
+    has exactly the result of a ONE-slice query on a fresh upstream sending one of the slices' responses — a failing
+    one whenever some slice fails.  So all theorems above apply to multi-slice queries: one failing slice makes the
+    whole upstream fail over (if that slice is unavailable) or stop the loop (if it is a query error) exactly as if the
+    upstream had failed entirely, and an answer is entirely the answering upstream's own. *)
+Theorem C15_range_slices_collapse : forall pick marker rs,
+  pick_ok pick -> rs <> [] ->
+  exists r, In r rs /\ slices_attempt pick marker rs = att ERange (fresh r marker) /\
+            ((exists r' e, In r' rs /\ run_query ERange marker r' = AErr e) -> exists e, run_query ERange marker r = AErr e).
+Proof. exact slices_collapse. Qed.
+Print Assumptions C15_range_slices_collapse.
+
 (** ** Non-vacuity: [refused; 500 text; healthy; healthy] on the query API is answered by upstream 2 with its
     own marker; [bad_data 400] behind a timeout stops there; three dead upstreams of a required server give
     one Bug. *)
@@ -201,5 +247,9 @@ Example C15_nonvacuous :
   fo_outcome (failover ERange g2) = OError 1 (EApi "bad_data" "x") /\ fo_contacts (failover ERange g2) = [1; 1; 0] /\
   check_unable EFlags true (fo_outcome (failover EFlags g3)) = ["Bug"] /\
   check_unable EFlags false (fo_outcome (failover EFlags g3)) = ["Warning"] /\
-  check_unable EFlags false (fo_outcome (failover EFlags g2)) = ["Warning"].
+  check_unable EFlags false (fo_outcome (failover EFlags g2)) = ["Warning"] /\
+  (* sequence: [500; healthy] answered by u1, then u0 recovers: the second call is answered by u0, one request *)
+  (let g4 := fresh_group [(RHttp 500 BUndecodable, "u0"); (healthy, "u1")] in
+   let r2 := failover EQuery (set_resps (fo_state (failover EQuery g4)) [healthy; healthy]) in
+   fo_outcome (failover EQuery g4) = OAnswer 1 "u1" /\ fo_outcome r2 = OAnswer 0 "u0" /\ fo_contacts r2 = [1; 0]).
 Proof. vm_compute. repeat split. Qed.
